@@ -208,14 +208,15 @@ Definition rewrite_conn (x : inst) (c : name * sx) : result (name * sx) :=
   end.
 
 (* pref.inst.connect(pref.portname, to) on a port that had no connection: a new entry at the end of `conns` *)
-Definition added_conns (x : inst) : list (name * sx) :=
-  flat_map (fun e => match a_kind (snd (fst e)) with
-                     | AGroup _ owner =>
-                         if String.eqb (fst owner) (i_name x) && single x &&
-                            match assoc (snd owner) (i_conns x) with None => true | Some _ => false end
-                         then [(snd owner, XSig (fst (fst e)) (a_width (snd (fst e))))] else []
-                     | ANc _ _ => []
-                     end) table.
+Definition added_one (x : inst) (e : N * alloc * name) : list (name * sx) :=
+  match a_kind (snd (fst e)) with
+  | AGroup _ owner =>
+      if String.eqb (fst owner) (i_name x) && single x &&
+         match assoc (snd owner) (i_conns x) with None => true | Some _ => false end
+      then [(snd owner, XSig (fst (fst e)) (a_width (snd (fst e))))] else []
+  | ANc _ _ => []
+  end.
+Definition added_conns (x : inst) : list (name * sx) := flat_map (added_one x) table.
 
 Definition rewrite_inst (x : inst) : result inst :=
   cs <- traverse (rewrite_conn x) (i_conns x) ;;
